@@ -49,6 +49,10 @@ def run(chk: Check, proj: Project) -> None:
     s5_accessors(chk, proj, ["CONTEXT_BEHAVIOR"], rule="S8")
     s10_mode_source(chk, proj, w)
     s12_layer_frame(chk, proj, w)
+    from . import C14 as _C14
+
+    chk.borrow("S15", "in django mode the slot's original content printed through `{{ default }}` is evaluated against the bindings at THAT position: the SlotRef renders on every use - a memo of the first output replays the first use's `{% with %}` / `{% for %}` values at later positions (shared with C14-S2)",
+               lambda sub: _C14.s2(sub, proj, w), only=lambda o: "SlotRef" in o.construct)
     from . import C01 as _C01
 
     chk.borrow("S14", "the slot's original content printed through `{{ default }}` sees ITS component's variables: every key that SlotNode.render overrides with the parent component's value on the shared Context (`component_vars` among them) is re-established by the SlotRef (shared with C01-S12)",
